@@ -144,9 +144,13 @@ class Run:
         cfg = wl['cfg']
         Cli = type('Cli', (RPCSession,), dict(sent_request_timeout=cfg['timeout'],
                                                target_response_time=cfg['trt'],
-                                               recalibrate_count=cfg['recal']))
+                                               recalibrate_count=cfg['recal'],
+                                               max_send_delay=cfg.get('send_delay', 20.0)))
         self.proto, self.tr, self.s = env.make_session(Cli, 'client')
         self.tr.on_write = self.on_write
+        self.tr.on_lost = self.on_lost
+        self.tr.on_resume_reading = self.flush
+        self.held = []           # data that arrived while the session had paused reading
         self.lim = self.s._outgoing_concurrency
         self.log = []            # (kind, caller, time, limit, extra)
         self.tasks = {}
@@ -211,12 +215,24 @@ class Run:
         if not answered:
             return
         data = json.dumps(rep if is_batch else rep[0]).encode() + b'\n'
-        self.reply_at[cid] = (self.loop.time() + delay, kind)
-        self.loop.call_later(delay, self.deliver, data)
+        self.loop.call_later(delay, self.deliver, data, cid, kind)
 
-    def deliver(self, data):
-        if self.lost_at is None:
-            self.proto.data_received(data)
+    def deliver(self, data, cid=None, kind=None):
+        """hand bytes to the protocol as a real transport would: not while reading is paused
+        (the session pauses reading while its send buffer is full), never after the loss"""
+        if self.lost_at is not None:
+            return
+        if not self.tr.reading:
+            self.held.append((data, cid, kind))
+            return
+        if cid is not None:
+            self.reply_at[cid] = (self.loop.time(), kind)
+        self.proto.data_received(data)
+
+    def flush(self):
+        held, self.held = self.held, []
+        for data, cid, kind in held:
+            self.deliver(data, cid, kind)
 
     # ---- callers
     async def caller(self, c):
@@ -251,11 +267,16 @@ class Run:
         t = self.tasks.get(cid)
         if t is not None and not t.done():
             self.cancelled_by_harness.add(cid)
+            self.note('X', cid)
             t.cancel()
 
+    def on_lost(self):
+        # the transport is closing (peer dropped it, or the session aborted a stuck write)
+        if self.lost_at is None:
+            self.lost_at = self.loop.time()
+            self.note('L', None)
+
     def drop(self):
-        self.lost_at = self.loop.time()
-        self.note('L', None)
         self.tr.close()
 
     def go(self):
@@ -266,8 +287,13 @@ class Run:
             self.loop.call_later(t, self.cancel, cid)
         if wl.get('drop_at') is not None:
             self.loop.call_later(wl['drop_at'], self.drop)
+        for t1, t2 in wl.get('pauses', []):
+            # the socket send buffer is full between t1 and t2
+            self.loop.call_later(t1, self.proto.pause_writing)
+            self.loop.call_later(t2, self.proto.resume_writing)
         n = len(wl['callers'])
-        horizon = max([c['start'] for c in wl['callers']] + [0]) + (n + 3) * (wl['cfg']['timeout'] + 1) + 10
+        horizon = max([c['start'] for c in wl['callers']] + [0]) + \
+            (n + 3) * (wl['cfg']['timeout'] + wl['cfg'].get('send_delay', 20.0) + 1) + 10
         self.env.advance(horizon)
         self.pending = [cid for cid, t in self.tasks.items() if not t.done()]
         self.env.close_loop()
@@ -316,7 +342,7 @@ def judge(run):
             start_info[cid] = (t, len([q for q in queued if q != cid]))
         elif kind == 'E':
             if cid in queued:
-                if queued[0] != cid and run.lost_at is None:
+                if queued[0] != cid and run.lost_at is None and not wl.get('pauses'):
                     fail('c20:not-fifo', f'caller {cid} written before caller {queued[0]} that queued earlier')
                 queued.remove(cid)
             inflight.add(cid)
@@ -342,9 +368,10 @@ def judge(run):
             lost = run.lost_at is not None and run.lost_at <= t
             tw = run.written.get(cid)
             t0, q_ahead = start_info.get(cid, (t, 0))
-            if t - t0 > (q_ahead + 2) * timeout + 1e-6:
+            slot = timeout + (cfg.get('send_delay', 20.0) if wl.get('pauses') else 0.0)
+            if t - t0 > (q_ahead + 2) * slot + 1e-6:
                 fail('c20:wait-not-bounded', f'caller {cid} started at {t0} with {q_ahead} queued ahead, '
-                                             f'finished at {t} > (q+2)*timeout')
+                                             f'finished at {t} > (q+2)*(timeout [+ max_send_delay])')
             if out[0] == 'exc':
                 if out[1] == 'TypeError' and c['kind'] == 'batch' and not any(c['items']):
                     fail('c20:all-notification-batch-typeerror',
@@ -355,6 +382,10 @@ def judge(run):
                 if cid not in run.cancelled_by_harness and not lost:
                     fail('c20:spurious-cancel', f'caller {cid} cancelled although the connection is up')
             elif out[0] == 'timeout':
+                if tw is None and not any(t1 <= t <= t2 + 1e-9 or t1 <= t - cfg.get('send_delay', 20.0) <= t2
+                                          for t1, t2 in wl.get('pauses', [])) and not lost:
+                    fail('c20:timeout-without-write', f'caller {cid} got TaskTimeout at {t} although its '
+                                                      f'request was never written and no write was blocked')
                 if tw is not None and abs(t - (tw + timeout)) > 1e-9 * max(1.0, t):
                     fail('c20:timeout-at-wrong-time', f'caller {cid}: written at {tw}, TaskTimeout at {t}, '
                                                       f'expected {tw + timeout}')
@@ -412,41 +443,51 @@ def monitor_ops(run):
     (None as observation = do not compare this record)"""
     callers = {c['id']: c for c in run.wl['callers']}
     ops, want = [], []
+    if run.wl.get('pauses'):
+        return ops, want        # entry into the limiter is not observable while writes are blocked
     log = run.log
     written, queued, holders = {}, [], set()
+    xed = set()       # cancel() called, task has not run yet: excluded from the queue comparison
     i = 0
     while i < len(log):
         kind, cid, t, lim, extra = log[i]
         if kind == 'L':
             break
+        if kind == 'X':
+            xed.add(cid)
+            ops.append(f'X{cid}')
+            want.append(([], sorted(holders), [q for q in queued if q not in xed], lim, set(xed)))
+            i += 1
+            continue
         if kind == 's':
             if i + 1 < len(log) and log[i + 1][0] == 'E' and log[i + 1][1] == cid:
                 written[cid] = log[i + 1][2]
                 holders.add(cid)
                 ops.append(f's{cid}')
-                want.append(([f'E{cid}'], sorted(holders), list(queued), log[i + 1][3]))
+                want.append(([f'E{cid}'], sorted(holders), [q for q in queued if q not in xed], log[i + 1][3], set(xed)))
                 i += 2
                 continue
             queued.append(cid)
             ops.append(f's{cid}')
-            want.append(([], sorted(holders), list(queued), lim))
+            want.append(([], sorted(holders), [q for q in queued if q not in xed], lim, set(xed)))
         elif kind == 'E':
             written[cid] = t
             if cid in queued:
                 queued.remove(cid)
             holders.add(cid)
             ops.append(f'r{cid}')
-            want.append(([f'E{cid}'], sorted(holders), list(queued), lim))
+            want.append(([f'E{cid}'], sorted(holders), [q for q in queued if q not in xed], lim, set(xed)))
         elif kind == 'd':
+            xed.discard(cid)
             if cid in holders:
                 holders.discard(cid)
                 taken = max(0, t - written[cid])
                 ops.append(f'd{cid}:{fr(taken)}:{count_of(callers[cid])}')
-                want.append(([], sorted(holders), list(queued), lim))
+                want.append(([], sorted(holders), [q for q in queued if q not in xed], lim, set(xed)))
             elif cid in queued:
                 queued.remove(cid)
                 ops.append(f'c{cid}')
-                want.append(([f'C{cid}'], sorted(holders), list(queued), lim))
+                want.append(([f'C{cid}'], sorted(holders), [q for q in queued if q not in xed], lim, set(xed)))
             else:
                 break           # finished without ever reaching the limiter: outside the model
         i += 1
@@ -470,7 +511,8 @@ def compare_monitor(res, case, cfg, ops, want, mline):
         m_h = h[2:]
         m_q = [x for x in (k[2:].split('.') if k[2:] != '-' else []) + (wq[2:].split('.') if wq[2:] != '-' else [])]
         m_T = int(T[2:])
-        evs, holders, queued, lim = w
+        evs, holders, queued, lim, xed = w
+        m_q = [x for x in m_q if int(x) not in xed]
         if m_T != lim and p[2:] != '-':
             x = F(p[2:]) + F(1, 2)
             if abs(x - round(x)) <= TIE * max(1, abs(x)):
@@ -541,6 +583,10 @@ def random_workload(rng, big=False):
         wl['drop_at'] = dy(rng, 0, t * 2)
     if rng.random() < 0.2:
         wl['cancels'] = [(rng.randrange(n), dy(rng, 0, t * 1.5)) for _ in range(rng.randint(1, 4))]
+    if rng.random() < 0.12:
+        cfg['send_delay'] = rng.choice([20.0, 1.0])
+        t1 = dy(rng, 0, 2)
+        wl['pauses'] = [(t1, t1 + rng.choice([0.25, cfg['send_delay'] / 2, cfg['send_delay'] + 1.0]))]
     return wl
 
 
@@ -615,6 +661,7 @@ def evaluate_workloads(ctx, res, wls, scope):
             res.count('outcome_' + k if k in ('result', 'error', 'timeout', 'cancelled', 'exc') else k, stats.get(k, 0))
         res.count('monitor_ops', len(ops))
         res.count('workloads_with_connection_loss', wl.get('drop_at') is not None)
+        res.count('workloads_with_blocked_writes', bool(wl.get('pauses')))
         res.count('workloads_hitting_the_cap', stats['max_inflight'] >= 50)
         if stats['limit_changes'] or stats['queued']:
             res.nontrivial(json.dumps(wl, sort_keys=True))
